@@ -264,3 +264,423 @@ Section Topo.
     - apply incl_refl.
   Qed.
 End Topo.
+
+(* ------------------------------------------------------------------------------------------ *)
+(* Part C: reference resolution *)
+Lemma lookup_Some ds r : forall i, lookup ds r = Some i ->
+  exists d, nth_error ds i = Some d /\ matches r d = true.
+Proof.
+  induction ds as [|d t IH]; simpl; intros i H; [discriminate|].
+  destruct (lookup t r) as [j|] eqn:E.
+  - inversion H; subst. simpl. now apply IH.
+  - destruct (matches r d) eqn:Em; [|discriminate]. inversion H; subst. simpl. eauto.
+Qed.
+
+Lemma lookup_None ds r : lookup ds r = None <-> dangling ds r.
+Proof.
+  unfold dangling. induction ds as [|d t IH]; simpl.
+  - split; [intros _ d [] | reflexivity].
+  - destruct (lookup t r) as [j|] eqn:E.
+    + split; [discriminate|]. intros H. exfalso.
+      assert (Some j = None) by (apply IH; intros x Hx; apply H; now right). discriminate.
+    + destruct (matches r d) eqn:Em.
+      * split; [discriminate|]. intros H. rewrite (H d) in Em by now left. discriminate.
+      * split; [|reflexivity]. intros _ x [<-|Hx]; [assumption|]. now apply IH.
+Qed.
+
+Lemma lookup_lt ds r i : lookup ds r = Some i -> i < length ds.
+Proof.
+  intros H. apply lookup_Some in H. destruct H as [d [H _]].
+  apply nth_error_Some. congruence.
+Qed.
+
+Lemma resolve_refs_Some ds : forall rs js, resolve_refs ds rs = Some js ->
+  Forall2 (fun r j => lookup ds r = Some j) rs js.
+Proof.
+  induction rs as [|r t IH]; simpl; intros js H.
+  - inversion H. constructor.
+  - destruct (lookup ds r) as [i|] eqn:E; [|discriminate].
+    destruct (resolve_refs ds t) as [l|] eqn:E2; [|discriminate].
+    inversion H; subst. constructor; auto.
+Qed.
+
+Lemma resolve_refs_None ds : forall rs, resolve_refs ds rs = None <->
+  exists r, In r rs /\ lookup ds r = None.
+Proof.
+  induction rs as [|r t IH]; simpl.
+  - split; [discriminate | intros [r [[] _]]].
+  - destruct (lookup ds r) as [i|] eqn:E.
+    + destruct (resolve_refs ds t) as [l|] eqn:E2.
+      * split; [discriminate|]. intros [x [[<-|Hx] Hn]]; [congruence|].
+        assert (@None (list nat) = None) as _ by reflexivity.
+        destruct IH as [_ IH]. discriminate IH. eauto.
+      * split; [|reflexivity]. intros _. destruct IH as [IH _].
+        destruct (IH eq_refl) as [x [Hx Hn]]. eauto.
+    + split; [|reflexivity]. intros _. eauto.
+Qed.
+
+Lemma resolve_each_Some ds : forall l rr, resolve_each ds l = Some rr ->
+  Forall2 (fun d js => resolve_refs ds (doc_refs d) = Some js) l rr.
+Proof.
+  induction l as [|d t IH]; simpl; intros rr H.
+  - inversion H. constructor.
+  - destruct (resolve_refs ds (doc_refs d)) as [x|] eqn:E; [|discriminate].
+    destruct (resolve_each ds t) as [y|] eqn:E2; [|discriminate].
+    inversion H; subst. constructor; auto.
+Qed.
+
+Lemma resolve_each_None ds : forall l, resolve_each ds l = None <->
+  exists d, In d l /\ resolve_refs ds (doc_refs d) = None.
+Proof.
+  induction l as [|d t IH]; simpl.
+  - split; [discriminate | intros [d [[] _]]].
+  - destruct (resolve_refs ds (doc_refs d)) as [x|] eqn:E.
+    + destruct (resolve_each ds t) as [y|] eqn:E2.
+      * split; [discriminate|]. intros [c [[<-|Hc] Hn]]; [congruence|].
+        destruct IH as [_ IH]. discriminate IH. eauto.
+      * split; [|reflexivity]. intros _. destruct IH as [IH _].
+        destruct (IH eq_refl) as [c [Hc Hn]]. eauto.
+    + split; [|reflexivity]. intros _. eauto.
+Qed.
+
+Theorem resolve_all_None ds : resolve_all ds = None <-> has_dangling ds.
+Proof.
+  unfold resolve_all, has_dangling. rewrite resolve_each_None. split.
+  - intros [c [Hc H]]. apply resolve_refs_None in H. destruct H as [r [Hr H]].
+    apply lookup_None in H. eauto.
+  - intros [c [r [Hc [Hr H]]]]. exists c. split; [assumption|].
+    apply resolve_refs_None. exists r. split; [assumption|]. now apply lookup_None.
+Qed.
+
+Lemma Forall2_nth_error_r {A B} (R : A -> B -> Prop) l l' :
+  Forall2 R l l' -> forall i y, nth_error l' i = Some y -> exists x, nth_error l i = Some x /\ R x y.
+Proof.
+  induction 1 as [|x y l l' Hxy H IH]; intros i z Hz.
+  - destruct i; discriminate.
+  - destruct i as [|i]; simpl in *.
+    + inversion Hz; subst. eauto.
+    + now apply IH.
+Qed.
+
+Lemma Forall2_length' {A B} (R : A -> B -> Prop) l l' : Forall2 R l l' -> length l = length l'.
+Proof. induction 1; simpl; congruence. Qed.
+
+(* what the resolved table contains *)
+Lemma resolved_children ds rr i j :
+  resolve_all ds = Some rr -> In j (children rr i) ->
+  exists d, nth_error ds i = Some d /\
+            exists r, In r (doc_refs d) /\ lookup ds r = Some j.
+Proof.
+  intros H Hj. apply resolve_each_Some in H. unfold children in Hj.
+  destruct (nth_error rr i) as [js|] eqn:E.
+  - rewrite (nth_error_nth _ _ _ E) in Hj.
+    destruct (Forall2_nth_error_r _ _ _ H _ _ E) as [d [Hd Hr]].
+    exists d. split; [assumption|]. apply resolve_refs_Some in Hr.
+    clear - Hr Hj. induction Hr as [|r k rs ks Hrk _ IH]; [contradiction|].
+    destruct Hj as [<-|Hj].
+    + exists r. split; [now left | assumption].
+    + destruct (IH Hj) as [r' [? ?]]. exists r'. split; [now right | assumption].
+  - apply nth_error_None in E. rewrite nth_overflow in Hj by assumption. contradiction.
+Qed.
+
+Lemma resolved_bound ds rr i j :
+  resolve_all ds = Some rr -> In j (children rr i) -> i < length ds /\ j < length ds.
+Proof.
+  intros H Hj. destruct (resolved_children _ _ _ _ H Hj) as [d [Hd [r [_ Hl]]]]. split.
+  - apply nth_error_Some. congruence.
+  - eapply lookup_lt; eauto.
+Qed.
+
+Lemma resolved_length ds rr : resolve_all ds = Some rr -> length rr = length ds.
+Proof. intros H. apply resolve_each_Some in H. symmetry. eapply Forall2_length'; eauto. Qed.
+
+(* ------------------------------------------------------------------------------------------ *)
+(* Part D: loading orders the rules topologically; conversion in that order never misses a result *)
+Lemma load_Ok ds rr o1 : load ds = Ok (rr, o1) ->
+  resolve_all ds = Some rr /\ o1 = topo rr (seq 0 (length ds)).
+Proof.
+  unfold load. destruct (resolve_all ds) as [x|]; [|discriminate].
+  intros H. inversion H; subst. auto.
+Qed.
+
+Theorem load_topo ds rr o1 :
+  load ds = Ok (rr, o1) -> acyclic rr ->
+  Permutation o1 (seq 0 (length ds)) /\ topo_ok rr o1 /\
+  Permutation (topo rr o1) (seq 0 (length ds)) /\ topo_ok rr (topo rr o1).
+Proof.
+  intros H Hac. apply load_Ok in H. destruct H as [Hr ->].
+  set (n := length ds). set (o1 := topo rr (seq 0 n)).
+  assert (P1 : Permutation o1 (seq 0 n)) by (apply topo_perm, seq_NoDup).
+  assert (N1 : NoDup o1) by (eapply Permutation_NoDup; [symmetry; exact P1 | apply seq_NoDup]).
+  assert (C0 : forall i, In i (seq 0 n) -> incl (children rr i) (seq 0 n)).
+  { intros i _ j Hj. apply in_seq. destruct (resolved_bound _ _ _ _ Hr Hj). fold n. lia. }
+  repeat split.
+  - exact P1.
+  - apply topo_topo_ok; auto using seq_NoDup.
+  - transitivity o1; [apply topo_perm; exact N1 | exact P1].
+  - apply topo_topo_ok; auto.
+    intros i Hi j Hj. eapply Permutation_in; [symmetry; exact P1|].
+    apply (C0 i); auto. eapply Permutation_in; [exact P1 | exact Hi].
+Qed.
+
+Section Run.
+  Variable Q : Type.
+  Variable rplain : doc -> list Q.
+  Variable rcorr : doc -> list (doc * list Q) -> list Q.
+  Variable ds : list doc.
+  Variable rr : list (list nat).
+
+  Notation get := (get Q).
+  Notation collect := (collect Q).
+  Notation conv_rule := (conv_rule Q rplain rcorr).
+  Notation run := (run Q rplain rcorr).
+
+  Lemma get_cons res i q j : get ((i, q) :: res) j = if Nat.eqb i j then Some q else get res j.
+  Proof. reflexivity. Qed.
+
+  Lemma collect_ok res : forall js,
+    (forall j, In j js -> j < length ds /\ get res j <> None) ->
+    exists subs, collect ds res js = Some subs.
+  Proof.
+    induction js as [|j t IH]; intros H; simpl; [eauto|].
+    destruct (H j (or_introl eq_refl)) as [Hlt Hg].
+    destruct (nth_error ds j) as [d|] eqn:Ed; [|apply nth_error_None in Ed; lia].
+    destruct (get res j) as [q|]; [|congruence].
+    destruct IH as [subs ->]; [intros x Hx; apply H; now right|]. eauto.
+  Qed.
+
+  Lemma run_ok ac : forall ord pre res em,
+    topo_ok rr (pre ++ ord) ->
+    (forall j, In j pre -> get res j <> None) ->
+    (forall i, In i ord -> i < length ds) ->
+    (forall i j, In j (children rr i) -> j < length ds) ->
+    exists r, run ac ds rr ord res em = Some r.
+  Proof.
+    induction ord as [|i t IH]; intros pre res em Ht Hpre Hlt Hb; simpl; [eauto|].
+    assert (Hi : i < length ds) by (apply Hlt; now left).
+    assert (Hc : exists q, conv_rule ds rr res i = Some q).
+    { unfold RefOrder.conv_rule. destruct (nth_error ds i) as [d|] eqn:Ed; [|apply nth_error_None in Ed; lia].
+      destruct (is_corr d); [|eauto].
+      destruct (collect_ok res (children rr i)) as [subs ->]; [|eauto].
+      intros j Hj. split; [eapply Hb; eauto|]. apply Hpre. eapply (Ht pre i t); auto. }
+    destruct Hc as [q ->].
+    apply (IH (pre ++ [i])).
+    - rewrite <- app_assoc. exact Ht.
+    - intros j Hj. rewrite get_cons. destruct (Nat.eqb i j) eqn:E; [discriminate|].
+      apply in_app_or in Hj. destruct Hj as [Hj|[<-|[]]]; [now apply Hpre|].
+      rewrite Nat.eqb_refl in E. discriminate.
+    - intros x Hx. apply Hlt. now right.
+    - exact Hb.
+  Qed.
+
+  (* results are stored per rule and never touched again by other rules *)
+  Lemma run_get_stable ac : forall ord res em res' em' i,
+    run ac ds rr ord res em = Some (res', em') -> ~ In i ord -> get res' i = get res i.
+  Proof.
+    induction ord as [|k t IH]; simpl; intros res em res' em' i H Hn.
+    - inversion H; subst. reflexivity.
+    - destruct (conv_rule ds rr res k) as [q|]; [|discriminate].
+      rewrite (IH _ _ _ _ i H) by tauto. rewrite get_cons.
+      destruct (Nat.eqb k i) eqn:E; [|reflexivity]. apply Nat.eqb_eq in E. subst. tauto.
+  Qed.
+
+  Definition own (res : results Q) (i : nat) : list Q := match get res i with Some q => q | None => [] end.
+
+  (* what Backend.convert returns: the own queries of the rules whose output flag is set, in order *)
+  Lemma run_emitted : forall ord res em res' em',
+    NoDup ord -> run false ds rr ord res em = Some (res', em') ->
+    em' = em ++ flat_map (fun i => if output_flag ds rr i then map (pair i) (own res' i) else []) ord
+    /\ forall i, In i ord -> get res' i <> None.
+  Proof.
+    induction ord as [|k t IH]; simpl; intros res em res' em' Hnd H.
+    - inversion H; subst. rewrite app_nil_r. split; [reflexivity | intros i []].
+    - destruct (conv_rule ds rr res k) as [q|] eqn:Ec; [|discriminate].
+      inversion Hnd as [|? ? Hk Ht]; subst.
+      assert (Hg : get res' k = Some q).
+      { rewrite (run_get_stable _ _ _ _ _ _ k H Hk). rewrite get_cons, Nat.eqb_refl. reflexivity. }
+      destruct (IH _ _ _ _ Ht H) as [E Hall]. split.
+      + rewrite E. unfold own at 2. rewrite Hg. rewrite orb_false_r.
+        destruct (output_flag ds rr k); [now rewrite <- app_assoc | reflexivity].
+      + intros i [<-|Hi]; [congruence | now apply Hall].
+  Qed.
+End Run.
+
+(* ------------------------------------------------------------------------------------------ *)
+(* Part E: the output flag and the pipeline as a whole *)
+Lemma In_combine_nth_error {A B} (l : list A) (l' : list B) x y :
+  In (x, y) (combine l l') <-> exists k, nth_error l k = Some x /\ nth_error l' k = Some y.
+Proof.
+  revert l'. induction l as [|a l IH]; intros [|b l']; simpl.
+  - split; [intros [] | intros [[|k] [H _]]; discriminate].
+  - split; [intros [] | intros [[|k] [H _]]; discriminate].
+  - split; [intros [] | intros [[|k] [_ H]]; discriminate].
+  - rewrite IH. split.
+    + intros [H|[k Hk]]; [inversion H; subst; exists 0; auto | exists (S k); auto].
+    + intros [[|k] [H1 H2]]; simpl in *; [left; congruence | right; eauto].
+Qed.
+
+Lemma plain_no_children ds rr k d :
+  resolve_all ds = Some rr -> nth_error ds k = Some d -> is_corr d = false -> children rr k = [].
+Proof.
+  intros H Hd Hc. destruct (children rr k) as [|j t] eqn:E; [reflexivity|].
+  assert (Hj : In j (children rr k)) by (rewrite E; now left).
+  destruct (resolved_children _ _ _ _ H Hj) as [d' [Hd' [r [Hr _]]]].
+  assert (d' = d) by congruence. subst.
+  unfold is_corr, doc_refs in *. destruct (d_body d); [contradiction | discriminate].
+Qed.
+
+Lemma output_flag_false ds rr i :
+  resolve_all ds = Some rr ->
+  (output_flag ds rr i = false <-> exists k, referrer ds rr k i false).
+Proof.
+  intros Hr. unfold output_flag. rewrite negb_false_iff, existsb_exists. split.
+  - intros [[d js] [Hin H]]. cbn [fst snd] in H.
+    apply andb_true_iff in H. destruct H as [H H3]. apply andb_true_iff in H. destruct H as [H1 H2].
+    apply In_combine_nth_error in Hin. destruct Hin as [k [Hd Hjs]].
+    exists k, d. repeat split; auto.
+    + now apply negb_true_iff in H2.
+    + rewrite (nth_error_nth _ _ _ Hjs). now apply memn_In.
+  - intros [k [d [Hd [Hc [Hg Hi]]]]].
+    destruct (nth_error rr k) as [js|] eqn:E.
+    + exists (d, js). split; [apply In_combine_nth_error; eauto|]. cbn [fst snd].
+      rewrite Hc, Hg. simpl. apply memn_In. now rewrite (nth_error_nth _ _ _ E) in Hi.
+    + apply nth_error_None in E. rewrite nth_overflow in Hi by assumption. contradiction.
+Qed.
+
+Section Pipeline.
+  Variable Q : Type.
+  Variable rplain : doc -> list Q.
+  Variable rcorr : doc -> list (doc * list Q) -> list Q.
+  Notation pipeline := (pipeline Q rplain rcorr).
+
+  Lemma pipeline_Ok ds c : pipeline ds = Ok c ->
+    exists rr, resolve_all ds = Some rr /\
+      c_order_load c = topo rr (seq 0 (length ds)) /\
+      c_order_conv c = topo rr (c_order_load c) /\
+      run Q rplain rcorr false ds rr (c_order_conv c) [] [] = Some (c_results c, c_emitted c).
+  Proof.
+    unfold RefOrder.pipeline. destruct (load ds) as [[rr o1]|e|e] eqn:El; try discriminate.
+    apply load_Ok in El. destruct El as [Hr ->].
+    destruct (run Q rplain rcorr false ds rr _ [] []) as [[res em]|] eqn:Er; [|discriminate].
+    intros H. inversion H; subst. cbn. eauto.
+  Qed.
+
+  Lemma order_conv_perm ds c : pipeline ds = Ok c ->
+    Permutation (c_order_load c) (seq 0 (length ds)) /\ Permutation (c_order_conv c) (seq 0 (length ds)).
+  Proof.
+    intros H. destruct (pipeline_Ok _ _ H) as [rr [Hr [E1 [E2 _]]]].
+    assert (P1 : Permutation (c_order_load c) (seq 0 (length ds))) by (rewrite E1; apply topo_perm, seq_NoDup).
+    split; [exact P1|]. rewrite E2. transitivity (c_order_load c); [|exact P1].
+    apply topo_perm. eapply Permutation_NoDup; [symmetry; exact P1 | apply seq_NoDup].
+  Qed.
+
+  (* a reference to a rule nobody answers to is reported when the collection is loaded - and
+     nothing else is *)
+  Theorem pipeline_missing_ref ds : pipeline ds = SigmaErr E_NotFound <-> has_dangling ds.
+  Proof.
+    rewrite <- resolve_all_None. unfold RefOrder.pipeline, load.
+    destruct (resolve_all ds) as [rr|].
+    - split; [|discriminate].
+      destruct (run Q rplain rcorr false ds rr _ [] []) as [[res em]|]; discriminate.
+    - split; reflexivity.
+  Qed.
+
+  (* an acyclic rule set without dangling references converts in every case *)
+  Theorem pipeline_total ds rr :
+    resolve_all ds = Some rr -> acyclic rr -> exists c, pipeline ds = Ok c.
+  Proof.
+    intros Hr Hac. unfold RefOrder.pipeline.
+    assert (El : load ds = Ok (rr, topo rr (seq 0 (length ds)))) by (unfold load; now rewrite Hr).
+    rewrite El. destruct (load_topo _ _ _ El Hac) as [P1 [T1 [P2 T2]]].
+    assert (A1 : forall j, In j [] -> get Q [] j <> None) by (intros j []).
+    assert (A2 : forall i, In i (topo rr (topo rr (seq 0 (length ds)))) -> i < length ds).
+    { intros i Hi. apply (Permutation_in _ P2) in Hi. apply in_seq in Hi. lia. }
+    assert (A3 : forall i j, In j (children rr i) -> j < length ds).
+    { intros i j Hj. eapply resolved_bound; eauto. }
+    destruct (run_ok Q rplain rcorr ds rr false _ [] [] [] T2 A1 A2 A3) as [[res em] ->]. eauto.
+  Qed.
+
+  Theorem pipeline_flags ds c rr i :
+    pipeline ds = Ok c -> resolve_all ds = Some rr -> i < length ds ->
+    get Q (c_results c) i <> None /\
+    ((exists k, referrer ds rr k i false) -> forall q, ~ In (i, q) (c_emitted c)) /\
+    ((forall k, ~ referrer ds rr k i false) ->
+       forall q, In q (own Q (c_results c) i) -> In (i, q) (c_emitted c)).
+  Proof.
+    intros H Hr Hi. destruct (pipeline_Ok _ _ H) as [rr' [Hr' [_ [_ Hrun]]]].
+    assert (rr' = rr) by congruence. subst rr'.
+    destruct (order_conv_perm _ _ H) as [_ P2].
+    assert (N2 : NoDup (c_order_conv c)) by (eapply Permutation_NoDup; [symmetry; exact P2 | apply seq_NoDup]).
+    destruct (run_emitted Q rplain rcorr ds rr _ _ _ _ _ N2 Hrun) as [E Hall].
+    assert (Hio : In i (c_order_conv c)).
+    { eapply Permutation_in; [symmetry; exact P2|]. apply in_seq. lia. }
+    simpl in E. split; [now apply Hall|]. split.
+    - intros Hk q Hin. apply (output_flag_false _ _ i Hr) in Hk.
+      rewrite E in Hin. apply in_flat_map in Hin. destruct Hin as [k [_ Hin]].
+      destruct (output_flag ds rr k) eqn:Ek; [|contradiction].
+      apply in_map_iff in Hin. destruct Hin as [q' [Hq _]]. inversion Hq; subst. congruence.
+    - intros Hk q Hq. rewrite E. apply in_flat_map. exists i. split; [assumption|].
+      destruct (output_flag ds rr i) eqn:Ek.
+      + apply in_map. assumption.
+      + apply (output_flag_false _ _ i Hr) in Ek. destruct Ek as [k Hk']. exfalso. eapply Hk; eauto.
+  Qed.
+End Pipeline.
+
+(* ------------------------------------------------------------------------------------------ *)
+(* Refutations (concrete witnesses, evaluated by vm_compute).
+   Rendering = the shipped TextQueryTestBackend. *)
+Definition mkP (t : N) : doc :=
+  {| d_title := [t]; d_name := Some [t]; d_id := None; d_body := Plain [[t]] |}.
+Definition mkC (t : N) (refs : list N) : doc :=
+  {| d_title := [t]; d_name := Some [t]; d_id := None;
+     d_body := Corr CTemporal (map (fun r => RName [r]) refs) false [117%N] [53%N; 104%N] |}.
+(* a, b, u plain; c -> [a, b]; d -> [c, u]   (c1, c2 of DESIGN.md) *)
+Definition wit_docs : list doc :=
+  [mkP 97; mkP 98; mkP 117; mkC 99 [97%N; 98%N]; mkC 100 [99%N; 117%N]].
+Definition wit_order : list doc := rev wit_docs.       (* d, c, u, b, a *)
+
+Fixpoint insert_all {A} (x : A) (l : list A) : list (list A) :=
+  match l with [] => [[x]] | y :: t => (x :: l) :: map (cons y) (insert_all x t) end.
+Fixpoint perms {A} (l : list A) : list (list A) :=
+  match l with [] => [[]] | x :: t => flat_map (insert_all x) (perms t) end.
+Definition is_ok {A} (o : outcome A) : bool := match o with Ok _ => true | _ => false end.
+
+Lemma sorted_refuted :
+  exists ds p, Permutation p ds
+    /\ is_ok (pipeline_sorted str tq_plain tq_corr ds) = true
+    /\ pipeline_sorted str tq_plain tq_corr p = SigmaErr E_Conversion
+    /\ is_ok (pipeline str tq_plain tq_corr p) = true.
+Proof.
+  exists wit_docs, wit_order. split; [symmetry; apply Permutation_rev|].
+  repeat split; vm_compute; reflexivity.
+Qed.
+
+Lemma sorted_fails_66_of_120 :
+  length (perms wit_docs) = 120 /\
+  length (filter (fun p => negb (is_ok (pipeline_sorted str tq_plain tq_corr p))) (perms wit_docs)) = 66 /\
+  forallb (fun p => is_ok (pipeline str tq_plain tq_corr p)) (perms wit_docs) = true.
+Proof. repeat split; vm_compute; reflexivity. Qed.
+
+(* duplicate names: the last document wins, so the order of the documents decides what a
+   correlation rule refers to *)
+Definition dup_docs : list doc :=
+  [ {| d_title := [97%N]; d_name := Some [120%N]; d_id := None; d_body := Plain [[97%N]] |};
+    {| d_title := [98%N]; d_name := Some [120%N]; d_id := None; d_body := Plain [[98%N]] |};
+    {| d_title := [99%N]; d_name := Some [99%N]; d_id := None;
+       d_body := Corr (CEventCount [49%N]) [RName [120%N]] false [117%N] [51%N; 104%N] |} ].
+Definition dup_order : list doc :=
+  match dup_docs with [a; b; c] => [b; a; c] | _ => [] end.
+Definition emitted_queries (o : outcome (converted str)) : list str :=
+  match o with Ok c => map snd (c_emitted c) | _ => [] end.
+
+Lemma duplicate_key_refuted :
+  exists ds p q, Permutation p ds
+    /\ In q (emitted_queries (pipeline str tq_plain tq_corr ds))
+    /\ ~ In q (emitted_queries (pipeline str tq_plain tq_corr p)).
+Proof.
+  exists dup_docs, dup_order.
+  eexists. split; [|split].
+  - unfold dup_order, dup_docs. apply perm_swap.
+  - vm_compute. right. left. reflexivity.
+  - vm_compute. intros [H|[H|[]]]; discriminate H.
+Qed.
